@@ -184,9 +184,13 @@ def run_impl(pid: str, func: str, cases: list, extra_env: dict | None = None, ti
     env.update(extra_env or {})
 
     def one(chunk):
-        p = subprocess.run([IMPL_PY, os.path.join(VERIF, "impl", "runner.py"), pid, func],
-                           input="\n".join(json.dumps(c) for c in chunk) + "\n",
-                           capture_output=True, text=True, env=env, timeout=timeout, cwd=VERIF)
+        for attempt in range(3):
+            p = subprocess.run([IMPL_PY, os.path.join(VERIF, "impl", "runner.py"), pid, func],
+                               input="\n".join(json.dumps(c) for c in chunk) + "\n",
+                               capture_output=True, text=True, env=env, timeout=timeout, cwd=VERIF)
+            if p.returncode >= 0:
+                break
+            time.sleep(2 + 3 * attempt)       # killed by a signal: try again
         lines = [l for l in p.stdout.splitlines() if l.startswith("R ")]
         if p.returncode != 0 or len(lines) != len(chunk):
             raise RuntimeError(f"impl runner failed rc={p.returncode}: {p.stderr[-2000:]}")
@@ -226,9 +230,13 @@ def run_coq_judge(requires: list[str], judge: str, terms: list[str], shard=300, 
             files.append(fn)
 
         def one(fn):
-            rc, out = sh(["timeout", str(timeout), "coqc", "-Q", COQDIR, "PS", fn], timeout=timeout + 60)
+            for attempt in range(3):
+                rc, out = sh(["timeout", str(timeout), "coqc", "-Q", COQDIR, "PS", fn], timeout=timeout + 60)
+                if rc == 0 or out.strip():
+                    break
+                time.sleep(2 + 3 * attempt)   # killed without output (memory pressure): try again
             if rc != 0:
-                raise RuntimeError(f"coqc failed on generated cases ({fn}):\n{out[-3000:]}")
+                raise RuntimeError(f"coqc failed on generated cases ({fn}) rc={rc}:\n{out[-3000:]}")
             m = re.search(r"=\s*\[(.*?)\]\s*(%N)?\s*:\s*list N", out, flags=re.S)
             if not m:
                 raise RuntimeError("cannot parse Coq output:\n" + out[-2000:])
